@@ -4,8 +4,10 @@ single-point mutations to a *copy* of the repository, keep those the pinned
 suite does not kill, and run the quick checks anchored in the mutated file
 against the copy (PYTHONPATH=<copy>/src makes `import reuse` resolve to it).
 
-usage: mutate.py <repo-copy> <out.json> [--stride N] [--offset K] [--files a.py,b.py] [--max M]
-The copy must be a checkout of /repo HEAD; it is restored after every mutant.
+usage: mutate.py <scratch-dir> <out.json> [--stride N] [--offset K] [--files a.py,b.py] [--max M]
+<scratch-dir> is created as a git worktree of /repo HEAD (it must not exist) and removed at the end.  Before the first mutant every check
+that will be used is run against the unmutated copy and must be silent - otherwise a defect of the copy itself (e.g. a stale copy that
+lacks a later fix) would make every mutant count as detected.  The commit of the copy is recorded in the output.
 """
 import ast
 import copy
@@ -100,6 +102,19 @@ def sh(cmd, **kw):
 def main():
     repo, out = sys.argv[1], sys.argv[2]
     args = sys.argv[3:]
+    if os.path.exists(repo):
+        sys.exit(f"{repo} exists; give a fresh scratch path")
+    head = sh("git -C /repo rev-parse --short HEAD").stdout.strip()
+    if sh(f"git -C /repo worktree add -q --detach {repo} HEAD").returncode != 0:
+        sys.exit("cannot create the worktree")
+    try:
+        _campaign(repo, out, args, head)
+    finally:
+        sh(f"git -C /repo worktree remove --force {repo}")
+        sh("git -C /repo worktree prune")
+
+
+def _campaign(repo, out, args, head):
     stride = int(args[args.index("--stride") + 1]) if "--stride" in args else 7
     offset = int(args[args.index("--offset") + 1]) if "--offset" in args else 0
     only = args[args.index("--files") + 1].split(",") if "--files" in args else list(FILE_CHECKS)
@@ -108,6 +123,14 @@ def main():
     done = {(r["file"], r["index"]) for r in results}
     env = dict(os.environ, PYTHONPATH=f"{repo}/src")
     env.pop("REUSE_VERIF", None)
+    used = sorted({c for rel in only for c in FILE_CHECKS[rel]})
+    for c in used:
+        p = subprocess.run(["/venv/bin/python", "-m", "mc.run", c, "--tier", "quick"], cwd="/verif", env=env, capture_output=True, text=True)
+        if p.returncode != 0:
+            sys.exit(f"check {c} is not silent on the unmutated copy (exit {p.returncode}); refusing to start")
+    print(f"copy at {head}: {len(used)} checks silent on it", flush=True)
+    results = [r for r in results if r.get("head") == head]
+    done = {(r["file"], r["index"]) for r in results}
     count = 0
     for rel in only:
         path = f"{repo}/src/reuse/{rel}"
@@ -125,7 +148,7 @@ def main():
                 compile(mutated, path, "exec")
             except Exception as e:
                 continue
-            rec = {"file": rel, "index": index, "line": ln, "mutation": desc}
+            rec = {"head": head, "file": rel, "index": index, "line": ln, "mutation": desc}
             open(path, "w").write(mutated)
             try:
                 t0 = time.time()
